@@ -166,4 +166,7 @@ def run(chk, tier):
         ab = found.get("AbortRQ")
         chk.expect(rq is not None and len(rq[0]) == 1 and "ReleaseRP" in rq[0][0] and rq[1], "scp-loop", mod, "ReleaseRQ", "send(&Pdu::ReleaseRP); break", rq, loc=C.fn_loc(h))
         chk.expect(ab is not None and ab[0] == [] and ab[1], "scp-loop", mod, "AbortRQ", "break without sending", ab, loc=C.fn_loc(h))
+    # the acceptor can only answer A-RELEASE-RQ (or abort) if the peer maximum it recorded lets a 10-byte PDU through
+    from . import shared
+    shared.max_pdu(chk, fx, "reply-sendable")
     chk.undecided.append("conformance of arbitrary interleavings of the two peers with the PS3.8 state machine (a model-checking question)")
